@@ -47,6 +47,7 @@ type BlockTrace struct {
 }
 
 type Chain struct {
+	Flags  NodeFlags
 	DB     dbm.DB
 	App    *c4eapp.App
 	W      *World
@@ -58,8 +59,12 @@ type Chain struct {
 
 // NewChainFromGenesis builds a fresh app and InitChains it from raw app-state bytes.
 func NewChainFromGenesis(appState []byte, initialHeight int64, genesisTime time.Time) *Chain {
+	return NewChainFromGenesisWith(appState, initialHeight, genesisTime, NodeFlags{})
+}
+
+func NewChainFromGenesisWith(appState []byte, initialHeight int64, genesisTime time.Time, flags NodeFlags) *Chain {
 	db := dbm.NewMemDB()
-	a, enc := newApp(db)
+	a, enc := newAppWith(db, flags)
 	w := &World{App: a, Enc: enc}
 	_, valSet, valPriv := BuildGenesis(a, enc, GenesisSpec{}) // only for the deterministic validator identity
 	w.ValSet, w.ValPriv = valSet, valPriv
@@ -77,7 +82,7 @@ func NewChainFromGenesis(appState []byte, initialHeight int64, genesisTime time.
 	if h == 0 {
 		h = 1
 	}
-	return &Chain{DB: db, App: a, W: w, Height: h - 1, Time: genesisTime}
+	return &Chain{DB: db, App: a, W: w, Height: h - 1, Time: genesisTime, Flags: flags}
 }
 
 // Restart models a restart of the node process between two blocks: a new application instance is
@@ -87,7 +92,7 @@ func (c *Chain) Restart() {
 	if c.inBlk {
 		panic("harness: restart inside a block")
 	}
-	a, enc := newApp(c.DB)
+	a, enc := newAppWith(c.DB, c.Flags)
 	c.App = a
 	c.W = &World{App: a, Enc: enc, ValSet: c.W.ValSet, ValPriv: c.W.ValPriv, ValAddr: c.W.ValAddr}
 }
@@ -245,6 +250,7 @@ func Replay(h ConcreteHistory) []BlockTrace { return ReplayAs(h, ReplicaOpts{}) 
 type ReplicaOpts struct {
 	RestartAfter map[int]bool // indexes of blocks after whose commit the node process restarts
 	Traffic      bool         // the node also checks / simulates the coming transactions and answers queries between blocks
+	Flags        NodeFlags    // node-local start-up options
 }
 
 // ReplayAs executes a concrete history on a fresh replica with the given process history.
@@ -253,7 +259,7 @@ func ReplayAs(h ConcreteHistory, o ReplicaOpts) []BlockTrace {
 	if err != nil {
 		panic(err)
 	}
-	c := NewChainFromGenesis(gen, h.InitialHeight, nsTime(h.GenesisTimeNs))
+	c := NewChainFromGenesisWith(gen, h.InitialHeight, nsTime(h.GenesisTimeNs), o.Flags)
 	var out []BlockTrace
 	for i, b := range h.Blocks {
 		var txs [][]byte
